@@ -218,7 +218,7 @@ EXTRA7 = {
  'C16': 'The out-of-range action triggers on any value outside; no tolerance is added before truncation to a cell number.',
  'C17': 'exp under the same test as log; VGLVLS is not read again after the converted edges were bound.',
  'C18': 'add_lat reads STARTJ, add_lon STARTI; the per-tracer block table is keyed by (tau0, tau1).',
- 'C19': 'Nothing is stored into a per-variable value array after it is built; a data cell that holds the missing code is written with every digit of the code, as the header declares it (defect fixed in /repo 84c90cb).',
+ 'C19': 'Nothing is stored into a per-variable value array after it is built; a data cell that holds the missing code is written with every digit of the code, as the header declares it (defect fixed in /repo 84c90cb); a comment attribute is flattened to one line before it is printed (defect fixed in /repo 5cfa62d).',
  'C20': 'PREC follows the last assignment to NEXP; blanks of the stamp become zeros before parsing.',
 }
 NA = {}
